@@ -17,6 +17,7 @@ META = {
     'assumptions': ['trichotomy/transitivity follow from exact comparison in Q u {+-inf}; they are not proved here'],
 }
 
+NARROWING = re.compile(r'^to_([iu](8|16|32|64|128|size))$')
 LOSSY = ('to_f64', 'nint_to_f64_or_inf', 'rational_to_f64_or_inf', 'to_f64_or_inf_or_complex', 'to_complex_or_inf',
          'to_f32', 'to_i64_wrapping', 'as_f64')
 
@@ -75,7 +76,8 @@ def run(F, rep, tier):
     init = F.body(reg.init)
     # ---------------- R8.1
     rep.rule('R8.1', 'no lossy numeric conversion (to_f64 family, IntToFloat/FloatToInt cast) in the in-crate call closure of the '
-             'comparison entry points; f64 -> BigInt only on floor(f) or under an f == trunc(f) test')
+             'comparison entry points; f64 -> BigInt only on floor(f) or under an f == trunc(f) test; the Option results of two checked '
+             'narrowings (to_i64 ...) are never compared with each other')
     E, missing = entry_set(F)
     for m in missing:
         rep.error('R8.1', 'comparison entry point not found: %s' % m)
@@ -130,7 +132,22 @@ def run(F, rep, tier):
                     rep.ok('R8.1', '%s: f64 -> BigInt' % fn, 'on floor(f)' if from_floor else 'under f == trunc(f)')
                 else:
                     rep.viol('R8.1', '%s|to_bigint-unfloored' % fn, 'f64::to_bigint (truncates toward zero) is applied to a float that is neither floored nor known integral: negative fractions compare wrongly', c.loc())
-        if not bad and not casts:
+        # two checked narrowings compared as Options: `a.to_i64() == b.to_i64()` is true for every pair of values that both
+        # fail to fit (None == None), so two different numbers compare equal
+        optcmp = []
+        for c in b.calls:
+            if c.target.rsplit('::', 1)[-1] in ('eq', 'ne', 'partial_cmp', 'cmp') and len(c.args) == 2:
+                sides = []
+                for a in c.args:
+                    sides.append(sorted(o[1].rsplit('::', 1)[-1] for o in origins(b, a)
+                                        if o[0] == 'call' and NARROWING.match(o[1].rsplit('::', 1)[-1])))
+                if sides[0] and sides[1]:
+                    optcmp.append((c, sides))
+        for c, sides in optcmp:
+            rep.viol('R8.1', '%s|option-compare|%s' % (fn, '+'.join(sorted(set(sides[0] + sides[1])))),
+                     'the Option results of two checked narrowings (%s / %s) are compared with %s: when neither value fits both are None, '
+                     'and two different numbers compare equal' % (sides[0], sides[1], c.target.rsplit('::', 1)[-1]), c.loc())
+        if not bad and not casts and not optcmp:
             rep.ok('R8.1', fn, 'no lossy conversion')
             n += 1
     rep.floor('R8.1', 'functions in the comparison closure', n, 18)
